@@ -58,16 +58,21 @@ references come back as 0 (`erase`).
 
 THE DOMAIN, explicitly (`savable`, RtDefs.lean — a decidable check on the value alone):
   * integers: all 64-bit values;  strings: every byte string without NUL (CR, `"`, `\`, invalid UTF-8 included);
-  * arrays up to MaxArraySize elements, classes, mappings, empty containers, ANY nesting depth, object references;
+  * arrays up to MaxArraySize elements, classes, mappings, empty containers, object references;
+  * nesting: whatever `save_variable` accepts (`hd`: svalue_save_size did not raise "nested too deep", i.e. at most
+    MAX_SAVE_SVALUE_DEPTH levels).  Since the nesting fix restore REFUSES deeper text (`restore_nesting_bounded`), so
+    the limit is part of the statement; before, restore followed any depth — and overflowed the C stack on
+    "({({({..." (a 600 KB text), found this round;
   * mapping keys: anything but floats (two float keys that print alike collapse — open finding K5, witness
     `Witness.float_keys_collapse`), integer / string / object keys pairwise different (true of every real mapping);
   * floats: no condition on the value; `FloatsOK F v` is the stated contract of the float parameter (`FloatOK`: the
     saved text is a number token that `parse_numeric` reads back to a float with the same saved text), which the
     correspondence run checks on every generated double incl. ±0, subnormals, infinities and NaN.
 Before round 2 the domain also excluded CR (K1), inf/nan (K2), non-UTF-8 bytes (K3), subnormals (K4): repaired. -/
-theorem roundtrip (F : FloatOps α) (mb : MbLen) (v : Value α) (hs : savable v = true) (hf : FloatsOK F v) :
+theorem roundtrip (F : FloatOps α) (mb : MbLen) (v : Value α) (hs : savable v = true) (hf : FloatsOK F v)
+    (hd : saveVariable F v ≠ SaveOut.tooDeep) :
     ∃ v', restoreVariable F mb (save F v) = RvOut.value v' ∧ Equiv F (erase v) v' :=
-  NV.C16.roundtrip F mb v hs hf
+  NV.C16.roundtrip F mb v hs hf hd
 
 /-- a deeply nested value of the domain: array ∋ mapping (string key with `"` CR LF `\` 0xff ↦ class ∋ array ∋
 mapping (INT64_MIN ↦ array ∋ object reference, empty string), float; 7 ↦ empty mapping), INT64_MAX -/
@@ -75,7 +80,21 @@ example : savable NV.C16.deepExample = true := by decide
 
 example (mb : MbLen) : ∃ v', restoreVariable NV.C16.rtF mb (save NV.C16.rtF NV.C16.deepExample) = RvOut.value v' ∧
     Equiv NV.C16.rtF (erase NV.C16.deepExample) v' :=
-  roundtrip NV.C16.rtF mb NV.C16.deepExample (by decide) NV.C16.deepExample_floatsOK
+  roundtrip NV.C16.rtF mb NV.C16.deepExample (by decide) NV.C16.deepExample_floatsOK NV.C16.deepExample_withinDepth
+
+/-- **The C stack use of restore is bounded**: an activation of restore_internal_size at a nesting level beyond
+MAX_SAVE_SVALUE_DEPTH refuses at once, for every text; every recursive call passes `nest + 1`; the value pass
+(restore_array / restore_mapping / restore_class) recurses only where the pre-pass succeeded. -/
+theorem restore_nesting_bounded (mb : MbLen) (fuel nest : Nat) (isMap idx : Bool) (s : List Nat) (size : Nat)
+    (zs : List Nat) (h : nest > maxDepth) : preD mb fuel nest false isMap idx s size zs = none :=
+  NV.C16.Total.preD_refuses_beyond_limit mb fuel nest isMap idx s size zs h
+
+/-- the nesting test only adds refusals: a text the pre-pass as coded accepts is accepted, with the same element
+counts, by the pre-pass without the test — which is what `restore_total` is proved through -/
+theorem nesting_test_only_refuses (mb : MbLen) (fuel nest : Nat) (top isMap idx : Bool) (s : List Nat) (size : Nat)
+    (zs : List Nat) (out : PreOut) (h : preD mb fuel nest top isMap idx s size zs = some out) :
+    pre mb fuel top isMap idx s size zs = some out :=
+  NV.C16.Total.preD_pre mb fuel nest top isMap idx s size zs out h
 
 /-- **safe_restore_svalue keeps the old value on every error.** -/
 theorem safe_restore_keeps_old_on_error (F : FloatOps α) (mb : MbLen) (t : List Nat) (old : Value α)
@@ -172,24 +191,26 @@ the same layout whose variables currently are `live`: static variables keep thei
 variable holds the saved value (equal up to `Equiv`, object references as 0).  Domain `objSavable` (decidable):
 variable names are identifiers and PAIRWISE DIFFERENT (two variables of one name at different inheritance levels are
 not restored correctly: open finding K6, `Witness.same_name_variables`), non-static values in the domain of
-`roundtrip`. -/
+`roundtrip`, incl. `hdp`: no variable nested too deep, i.e. the save_object was not refused. -/
 theorem object_roundtrip (F : FloatOps α) (mb : MbLen) (prog : List Nat) (z : Bool) (vars live : List (Var α))
     (hprog : ∀ b ∈ prog, b ≠ 10 ∧ b ≠ 0) (hs : objSavable vars = true)
     (hf : ∀ v ∈ vars, v.isStatic = false → FloatsOK F v.val)
+    (hdp : ∀ v ∈ vars, v.isStatic = false → saveVariable F v.val ≠ SaveOut.tooDeep)
     (hlay : live.map (·.name) = vars.map (·.name) ∧ live.map (·.isStatic) = vars.map (·.isStatic)) :
     ∃ res, restoreObject F mb false (some (saveFileText F prog z vars)) live = (1, RoOut.done res) ∧
       ObjRestored F vars live res :=
-  NV.C16.object_roundtrip F mb prog z vars live hprog hs hf hlay
+  NV.C16.object_roundtrip F mb prog z vars live hprog hs hf hdp hlay
 
 /-- restore_object(file, 1) (noclear): as `object_roundtrip`, except that a non-static variable the save did not
 write (no save_zeros, value 0) keeps its LIVE value instead of becoming 0 (`ObjRestoredNC.kept`) -/
 theorem object_roundtrip_noclear (F : FloatOps α) (mb : MbLen) (prog : List Nat) (z : Bool)
     (vars live : List (Var α)) (hprog : ∀ b ∈ prog, b ≠ 10 ∧ b ≠ 0) (hs : objSavable vars = true)
     (hf : ∀ v ∈ vars, v.isStatic = false → FloatsOK F v.val)
+    (hdp : ∀ v ∈ vars, v.isStatic = false → saveVariable F v.val ≠ SaveOut.tooDeep)
     (hlay : live.map (·.name) = vars.map (·.name) ∧ live.map (·.isStatic) = vars.map (·.isStatic)) :
     ∃ res, restoreObject F mb true (some (saveFileText F prog z vars)) live = (1, RoOut.done res) ∧
       ObjRestoredNC F z vars live res :=
-  NV.C16.object_roundtrip_noclear F mb prog z vars live hprog hs hf hlay
+  NV.C16.object_roundtrip_noclear F mb prog z vars live hprog hs hf hdp hlay
 
 /-! ## bridging lemmas over the REGENERATED source facts (NV/Gen/C16.lean): a changed C line breaks these -/
 
@@ -226,5 +247,35 @@ theorem save_failure_leaves_no_tmp (chunks : List (List Nat)) (old : Option (Lis
 theorem save_success_leaves_no_tmp (chunks : List (List Nat)) (old : Option (List Nat)) :
     ((FS.mk old none).run (saveScript chunks none).1).tmp = none :=
   NV.C16.save_success_leaves_no_tmp chunks old
+
+/-- **save_object as a whole** (dry run over the variables, then the call script): whatever way it ends — the LPC error
+"nested too deep", a failure reported for any call, success — no temporary file is left behind.  (False before the
+two temporary-file fixes: header-write failure; too-deep error raised in the middle of writing = finding K7.) -/
+theorem saveObject_leaves_no_tmp (F : FloatOps α) (prog : List Nat) (z : Bool) (vars : List (Var α))
+    (fail : Option Nat) (old : Option (List Nat)) :
+    (saveObjectFS F prog z vars fail (FS.mk old none)).1.tmp = none :=
+  NV.C16.saveObject_leaves_no_tmp F prog z vars fail old
+
+/-- the LPC error of save_object is raised before its first file-system call: nothing has changed ... -/
+theorem saveObject_error_touches_nothing (F : FloatOps α) (prog : List Nat) (z : Bool) (vars : List (Var α))
+    (fail : Option Nat) (fs : FS) (h : (saveObjectFS F prog z vars fail fs).2 = none) :
+    (saveObjectFS F prog z vars fail fs).1 = fs :=
+  NV.C16.saveObject_error_touches_nothing F prog z vars fail fs h
+
+/-- ... and it is raised exactly when a non-static variable is nested deeper than MAX_SAVE_SVALUE_DEPTH -/
+theorem saveObject_error_iff_too_deep (F : FloatOps α) (prog : List Nat) (z : Bool) (vars : List (Var α))
+    (fail : Option Nat) (fs : FS) :
+    (saveObjectFS F prog z vars fail fs).2 = none ↔
+      ∃ v ∈ vars, v.isStatic = false ∧ saveVariable F v.val = SaveOut.tooDeep :=
+  NV.C16.saveObject_error_iff_too_deep F prog z vars fail fs
+
+/-- for EVERY path the temporary is `<first tmpPrefixMax bytes>.tmp` (the buffer never cuts the suffix) ... -/
+theorem tmpName_eq (file : List Nat) : tmpName file = file.take NV.Gen.C16.tmpPrefixMax ++ [46, 116, 109, 112] :=
+  NV.C16.tmpName_eq file
+
+/-- ... hence never the save file of ANY object (those end in the last byte of SAVE_EXTENSION): two objects whose long
+paths share a temporary cannot clobber a save file with it -/
+theorem tmpName_never_a_save_file (file g : List Nat) (hg : g.getLast? = some NV.Gen.C16.saveExt1) :
+    tmpName file ≠ g := NV.C16.tmpName_never_a_save_file file g hg
 
 end NV.C16.Props
